@@ -56,7 +56,10 @@ Inductive c11case :=
 (* Provision's default for max_fails *)
 | HMaxFails (c : hcfg) (obs : Z)
 (* Upstream.provision: the effective MaxConnections of every upstream *)
-| HLimits (c : hcfg) (obs : list Z).
+| HLimits (c : hcfg) (obs : list Z)
+(* an attempt of Handle for which the selection policy returned no upstream at time t: no upstream may be
+   available then (the policies return an available upstream iff one exists: C10) *)
+| HNoUp (c : hcfg) (h : list tev) (t : Z).
 
 Definition check (c : c11case) : bool :=
   match c with
@@ -72,4 +75,7 @@ Definition check (c : c11case) : bool :=
       (set_healthy old healthy =? nw) && Bool.eqb swapped (negb (set_healthy old healthy =? old))
   | HMaxFails cf obs => max_fails cf =? obs
   | HLimits cf obs => zlist_eqb (max_conns cf) obs
+  | HNoUp cf h t =>
+      sortedb h 0 && forallb (fun te => fst te <=? t) h &&
+      negb (existsb (fun u => avail cf (state_at cf h t) u) (seq 0 (List.length (topo cf))))
   end.
